@@ -69,13 +69,16 @@ def litOutcome (digits sfx annot : String) : String :=
                 s!"accept prim={b.2.1} val={v} tast={b.2.2.2} goty={goName} golit={String.ofList (goLit v)}"
 
 /-- `match (x : scrut) { <digits><suffix> => … }` through the modelled pipeline (check_pat + tast_builder + compile_match) -/
-def patOutcome (digits sfx scrut : String) : String :=
+def patOutcome (digits sfx scrut shape : String) : String :=
+  let inferred := ["arith", "let", "closure", "generic", "ifexpr"].contains shape
   match rowOfName scrut with
   | none => "no-scrutinee-type"
   | some srow =>
-    -- literal type: the suffix's type, or (unsuffixed) the scrutinee's integer type
+    -- literal type: the suffix's type, or (unsuffixed) the scrutinee's integer type if it is known when the pattern is
+    -- checked, int32 otherwise; the constraint `literal type = scrutinee type` is pushed in every case
     let litTy : Option String :=
-      if sfx == "" then some srow.ty else (Gen.NumTypes.patForms.find? (·.1 == sfx)).map (·.2.2)
+      if sfx == "" then some (patTarget (if inferred then none else some srow.ty))
+      else (Gen.NumTypes.patForms.find? (·.1 == sfx)).map (·.2.2)
     match litTy.bind rowOfTy with
     | none => "no-literal-type"
     | some row =>
@@ -91,7 +94,8 @@ def patOutcome (digits sfx scrut : String) : String :=
         if !cls.isEmpty then "reject typer " ++ "+".intercalate cls
         else
           let built : Option (String × String) :=
-            if sfx == "" then patPrimOf Gen.NumTypes.builderPatUnsuffixed row.ty
+            -- tast_builder.rs rebuilds an unsuffixed pattern at the pattern's FINAL type (= the scrutinee's)
+            if sfx == "" then patPrimOf Gen.NumTypes.builderPatUnsuffixed srow.ty
             else (Gen.NumTypes.patForms.find? (·.1 == sfx)).bind fun f =>
               (Gen.NumTypes.builderPat.find? (·.1 == f.2.1)).map fun b => (b.2.1, b.2.2.1)
           match built with
@@ -104,7 +108,7 @@ def patOutcome (digits sfx scrut : String) : String :=
               | none => "no-builder-carrier"
               | some bt =>
                 let v := builderValue (kind == "unsigned") bt digits.toList
-                s!"accept cases=var:{srow.goName}/lit:{srow.goName}:{String.ofList (goLit v)}"
+                s!"accept core={prim}:{v}:{srow.ty} cases=var:{srow.goName}/lit:{srow.goName}:{String.ofList (goLit v)}"
 
 def errName : ParseErr → String
   | .empty => "empty" | .invalidDigit => "invalidDigit" | .posOverflow => "posOverflow" | .negOverflow => "negOverflow"
@@ -176,7 +180,7 @@ def runLine (l : String) : String :=
       | some g, some sym => s!"{id}\t{core} goop={g} arg=lit:{goty}:{golit} goty={goty} declty={goty} txt={goty}:{sym}{golit}"
       | _, _ => s!"{id}\tno-op"
     else s!"{id}\t{inner}"
-  | some (.list [.atom "pat", .atom d, .atom s, .atom sc]) => s!"{id}\t{patOutcome d (unDash s) sc}"
+  | some (.list [.atom "pat", .atom d, .atom s, .atom sc, .atom sh]) => s!"{id}\t{patOutcome d (unDash s) sc sh}"
   | some (.list [.atom "parse", .atom rust, .atom s]) =>
     match IntTy.ofRust rust with
     | some t =>
